@@ -33,7 +33,7 @@ CIRC = {
  'chf_iter': ('CH', NC, HF2, 'spec_cell_lists(&m, c, x)', 'CHF(&m, c, (unsigned long)k %% CVAL(&m, c))', ['prism', 'twotets']),
  'cf_iter':  ('CH', NC, NF, 'spec_cell_lists(&m, c, 2 * x) || spec_cell_lists(&m, c, 2 * x + 1)', 'CHF(&m, c, (unsigned long)k %% CVAL(&m, c)) >> 1', ['prism', 'twotets']),
  'cv_iter':  ('CH', NC, NV, 'spec_vertex_in_cell(&m, c, x)', None, ['prism', 'twotets']),
- 'ce_iter':  ('CH', NC, NE, 'spec_he_in_cell(&m, c, 2 * x)', None, ['prism', 'twotets']),
+ 'ce_iter':  ('CH', NC, NE, 'spec_he_in_cell(&m, c, 2 * x)', None, ['tet', 'twotets']),
  'che_iter': ('CH', NC, HE2, 'spec_he_in_cell_oriented(&m, c, x)', None, ['tet', 'twotets']),
  'cc_iter':  ('CH', NC, NC, 'x != c && !CDEL(&m, x) && spec_cells_share_face(&m, c, x)', None, ['twotets', 'prism']),
 }
